@@ -95,6 +95,18 @@ OpNext(m) ==
   ELSE IF Cardinality(PlayableSet(nd.m)) < 2 THEN R(nd.m, "ErrInsufficientNumberOfPlayers")
   ELSE LET m2 == RenewSeatStatus(nd.m) IN IF m2.crashed THEN R(m2, "PANIC") ELSE R(m2, "")
 
+(* ---- match/table.go: match.Table, a client of the seat manager (Join, ApplySeatChanges) ---- *)
+\* SetDealer / SetSmallBlind / SetBigBlind: sm.seats[id], i.e. nil for an id that is not a seat
+PosOf(m, id) == IF id \in SeatIds(m) THEN id ELSE NULL
+\* sc = [dealer, sb, bb, left (set of seat ids reported "left")]; ids of `left` outside the table make the Go code
+\* dereference a nil seat (PANIC) - the drivers pass in-range ids only
+OpApplySeatChanges(m, sc) ==
+  LET m1 == IF sc.dealer > -1 /\ sc.sb > -1 /\ sc.bb > -1
+            THEN [m EXCEPT !.dealer = PosOf(m, sc.dealer), !.sb = PosOf(m, sc.sb), !.bb = PosOf(m, sc.bb)] ELSE m
+  IN IF \E s \in sc.left : s \notin SeatIds(m) THEN R([m1 EXCEPT !.crashed = TRUE], "PANIC")
+     ELSE R([m1 EXCEPT !.seat = [s \in SeatIds(m) |-> IF s \in sc.left /\ m.seat[s].player # NULL
+                                                     THEN [m.seat[s] EXCEPT !.player = NULL, !.reserved = FALSE] ELSE m.seat[s]]], "")
+
 NewSM(max) == [max |-> max, seat |-> [s \in 0..(max - 1) |-> [player |-> NULL, active |-> TRUE, reserved |-> FALSE]],
                dealer |-> NULL, sb |-> NULL, bb |-> NULL, crashed |-> FALSE]
 =============================================================================
